@@ -81,7 +81,9 @@ func needsUpdateRule(o *Ob) {
 	o.Table(fn, "needsUpdate", []Row{
 		{Name: "never notified, something fires", Assume: A(NIL, F0.Neg()), Ret: [][]string{Vals(itoa(int(first)))}},
 		{Name: "never notified, nothing fires", Assume: A(NIL, F0), Ret: N},
-		{Name: "a firing alert the last notification did not list", Assume: A(NIL.Neg(), FS.Neg()), Ret: Y},
+		// an empty set is a subset of anything (C04.14 decides that of the subset test), so "not a subset" implies
+		// that something fires: a function that looks at emptiness first cannot be on this row's path with F0
+		{Name: "a firing alert the last notification did not list", Assume: A(NIL.Neg(), FS.Neg()), Opt: A(F0.Neg()), Ret: Y},
 		{Name: "nothing fires any more, last notification listed firing alerts", Assume: A(NIL.Neg(), FS, F0, EF0.Neg()), Ret: Y},
 		{Name: "nothing fires, last notification listed none", Assume: A(NIL.Neg(), FS, F0, EF0), Ret: N},
 		{Name: "send_resolved and a resolved alert not yet reported", Assume: A(NIL.Neg(), FS, F0.Neg(), SR, RS.Neg()), Ret: Y},
@@ -92,7 +94,7 @@ func needsUpdateRule(o *Ob) {
 	})
 	// a group that had a moment with no firing alert starts a new cycle: first-notification reason when the entry lists no firing alerts
 	o.Table(fn, "needsUpdate-cycle", []Row{
-		{Name: "new firing after an all-resolved notification is a first notification", Assume: A(NIL.Neg(), FS.Neg(), EF0), Ret: [][]string{Vals(itoa(int(first)))}},
+		{Name: "new firing after an all-resolved notification is a first notification", Assume: A(NIL.Neg(), FS.Neg(), EF0), Opt: A(F0.Neg()), Ret: [][]string{Vals(itoa(int(first)))}},
 	})
 	o.MinSites(10)
 }
